@@ -80,10 +80,16 @@ fn main() {
                     gen_serve::gen_mixed(&mut rng, n_mixed, "c02", &mut emit_serve);
                     gen_serve::gen_chunkings(&mut rng, thorough, &mut emit_serve);
                 }
-                "C03" => gen_serve::gen_c03(&mut rng, thorough, &mut emit_serve),
+                "C03" => {
+                    gen_serve::gen_c03(&mut rng, thorough, &mut emit_serve);
+                    gen_serve::gen_overflow_corner(&mut rng.fork(), false, &mut emit_serve);
+                }
                 "C04" => gen_serve::gen_c04(&mut rng, thorough, &mut emit_serve),
                 "C05" => gen_serve::gen_c05(&mut rng, thorough, &mut emit_serve),
-                "C06" => gen_serve::gen_c06(&mut rng, thorough, &mut emit_serve),
+                "C06" => {
+                    gen_serve::gen_c06(&mut rng, thorough, &mut emit_serve);
+                    gen_serve::gen_overflow_corner(&mut rng.fork(), false, &mut emit_serve);
+                }
                 "C07" => {
                     gen_serve::gen_c07(&mut rng, thorough, &mut emit_serve);
                     gen_serve::gen_mixed(&mut rng, n_mixed / 4, "c20", &mut emit_serve);
@@ -108,7 +114,10 @@ fn main() {
                     gen_stream::gen_random(&mut rng, if thorough { 20000 } else { 2500 }, true, false, &mut emit_stream);
                     gen_stream::gen_random(&mut rng, if thorough { 5000 } else { 500 }, true, true, &mut emit_stream);
                 }
-                "C13" => gen_serve::gen_mixed(&mut rng, n_mixed * 3, "c13", &mut emit_serve),
+                "C13" => {
+                    gen_serve::gen_mixed(&mut rng, n_mixed * 3, "c13", &mut emit_serve);
+                    gen_serve::gen_overflow_corner(&mut rng.fork(), thorough, &mut emit_serve);
+                }
                 "C14" => {
                     drop(emit_serve);
                     histories::gen_c14(&mut rng, thorough, &mut cases, &mut meta, &prop);
